@@ -19,6 +19,18 @@ def use_repo():
     if sys.path[0] != p:
         sys.path.insert(0, p)
 
+_SEED = int(os.environ.get("VERIF_SEED", "0") or 0)
+
+def set_seed(n: int):
+    global _SEED
+    _SEED = int(n)
+
+def sampled(block: str, mod: int) -> bool:
+    """Deterministic 1/mod sample of the TLC states, varying with the seed of the run (workers inherit it by fork)."""
+    if mod <= 1:
+        return True
+    return ((hash(block) ^ (_SEED * 2654435761)) & 0x7FFFFFFF) % mod == 0
+
 def jhash(obj) -> str:
     return hashlib.sha1(json.dumps(obj, sort_keys=True, default=repr).encode()).hexdigest()[:16]
 
